@@ -251,7 +251,9 @@ Step ==
             /\ UNCHANGED <<cfg, Rq>>
        [] e.e = "sock.close" /\ known ->
             LET need == ReasonCause(e.reason)
-                okCause == CASE e.reason = "ping timeout" -> TimeoutLegal(s.deadline, t) \/ TimeoutLegal(s.grace, t)
+                \* (a session held in its constructor across a heartbeat instant: the ping went out before anybody could observe
+                \*  it, the deadline it armed is not known here)
+                okCause == CASE e.reason = "ping timeout" -> TimeoutLegal(s.deadline, t) \/ TimeoutLegal(s.grace, t) \/ s.phaseUnk
                              [] e.reason \in DocumentedReasons -> need \in s.causes
                              [] OTHER -> FALSE
                 modelClients == {x \in DOMAIN SS : ~SS[x].closed} \ {e.sid}
@@ -518,6 +520,18 @@ Step ==
             /\ S' = SS
             /\ viol' = viol \o tv \o (IF e.stillOpen THEN <<V("C08", "bogus_candidate_connection_left_open", "", [transport |-> e.transport])>> ELSE <<>>)
             /\ UNCHANGED <<cfg, Rq, Cn>>
+       [] e.e = "cons.expect" ->
+            \* conformance of the real server to Construct.tla: what can be seen from outside of the model state after a replayed step
+            \* (the ready state once the session can be got hold of, the close events once the application has been handed it)
+            LET x == e.exp  y == e.act
+                diffs == (IF x.table # y.table THEN <<"table">> ELSE <<>>) \o (IF x.count # y.count THEN <<"count">> ELSE <<>>)
+                      \o (IF x.conn # y.conn THEN <<"conn">> ELSE <<>>)
+                      \o (IF y.rs # "" /\ x.rs # y.rs THEN <<"rs">> ELSE <<>>)
+                      \o (IF y.nclose >= 0 /\ x.conn > 0 /\ x.nclose # y.nclose THEN <<"nclose">> ELSE <<>>)
+            IN /\ S' = SS /\ UNCHANGED <<cfg, Rq, Cn>>
+               /\ viol' = viol \o tv \o (IF diffs = <<>> THEN <<>> ELSE <<V("NONCONF", "constructor_state_differs", "", [after |-> e.a, fields |-> diffs, exp |-> x, act |-> y])>>)
+                    \o (IF y.count < 0 \/ y.count > 1000000 THEN <<V("C04", "client_count_underflow", "", y.count)>> ELSE <<>>)
+                    \o (IF y.conn > 1 THEN <<V("C06", "second_connection_event", "", y.conn)>> ELSE <<>>)
        [] e.e = "tickwin" ->
             \* the tick of the refreshed timer was held before the timer's mutex when the heartbeat packet was accepted: it is stale
             /\ S' = SS
